@@ -27,6 +27,11 @@ CHECKS = {
             "On the lattice every sum the loop forms is exact, so the recorded grid of each of the 23 fixed-step methods is compared bit-for-bit with the spec grid for all 42 spans and 3 step sizes; shift and reflection of an autonomous problem are compared between two real runs (rounding level for explicit/splitting, tolerance level otherwise) for all 32 methods.",
             "Known finding F8 (implicit fixed-step methods grow the step) is pinned by a narrow signature; see known_findings.json.",
             "DESIGN.md 4/C04"),
+    "C05": ("exploration",
+            "exhaustive product enumeration (adaptive method x closed-form problem x direction x tolerance ladder x initial dt) with every attempt of every integrator call logged through the real step (retry protocol checked exactly) and a blow-up problem for the give-up clause",
+            "All 9 embedded pairs and 4 Richardson wrappers are run on 5 problems with closed forms in both directions of time along a tolerance ladder and from initial steps between 1e-2 (thorough 1e-4) and larger than the span. Accuracy is compared with C_m*tol*kappa (kappa from the variational equation, C_m a frozen table); the retry protocol (a retry after a controller rejection is strictly smaller, same sign, accepted step not longer than the request) is exact; a finite-time blow-up must end in FailedToMeetTolerances with a finite, monotone, accurate prefix.",
+            "Accuracy clause is quantitative (catches gross failures); cells predicted to need > 2e4 steps are declared out of bound and counted.",
+            "DESIGN.md 4/C05"),
     "C06": ("model_checking",
             "explicit-state breadth-first search over histories (integrate, integrate(mid), terminal-event stop, faulting integrate) with dense output on; all dense-output invariants evaluated on the real object in every reached state",
             "From 10 methods (incl. two Richardson wrappers) x 5 signed spans every history to depth 3 is replayed on the real OdeSystem; in every state: exactly one anchored piece per recorded step with end values = rows and end slopes = f(rows), pieces ordered, every interior query (3 per step, scalar, array, grad, system[t]) answered by the containing piece, accuracy against the closed form within the Hermite remainder plus the observed grid error.",
@@ -67,11 +72,31 @@ CHECKS = {
             "In every state reached by a history up to the depth bound: the history is rebuilt twice and must hash bit-identically; the caller's y0 / constants and the class-level coefficient tables are unchanged; a call at the current time changes nothing; reset() gives a pristine system and a subsequent integrate is bit-identical (rows and dense slopes) to a freshly constructed system with the state's current settings. Split-invariance cells compare one-call and several-call runs for 18+ methods.",
             "Depth 3 (quick) / 4 (thorough), each setter at most once per history; 'same settings' = method, rtol, atol, tf, mask, constructor dt and dense flag.",
             "DESIGN.md 4/C13"),
+    "C14": ("exploration",
+            "exhaustive product enumeration (function x bracket x scale x tolerance x dtype) for the scalar Brent solver and every window of length 1..16 over the same enumeration for the vectorised solver, each answer certified against the function itself",
+            "7 functions (linear, flat cubic root, quadratic, exp, steep tanh, jump, multi-root sine) x 10 brackets (both orders, root interior / exactly at an end / absent, |x| > 4, narrow) x scales 1e-6..1e9 x 3 tolerances x 3 dtypes: point inside the bracket; sign change => success and a sign change within tolerance of the point; success => |f| <= tol or sign change nearby; vector flags and points agree with the scalar solver on sign-change brackets.",
+            "'within tolerance' = max(tol, 4 ulp) relative to max(1,|x|); on brackets without a sign change the scalar solver's documented (inf, False) sentinel is accepted.",
+            "DESIGN.md 4/C14"),
+    "C15": ("exploration",
+            "exhaustive product enumeration (system x shape x solver / dispatch path x Jacobian source x initial guess x tolerance) with the residual re-evaluated in longdouble at every point reported as a success",
+            "7 systems (incl. singular Jacobian at the root, remote root, two rootless) x shapes (), (n,) for n in {1,2,3,6,12}, (2,3) x {nonlinear_roots via MINPACK, nonlinear_roots via the built-in dogleg/Newton path (longdouble), newtontrustregion, hybrj} x analytic / finite-difference Jacobian x near / far / singular guesses x 3 tolerances: success => ||F(x)|| <= 100 tol (n + ||x||) and the shape of the guess; an exception counts as a reported failure.",
+            "O(1)-scaled systems; MINPACK / LAPACK trusted.",
+            "DESIGN.md 4/C15"),
+    "C16": ("model_checking",
+            "explicit-state breadth-first search over jac / hook / unhook / assignment / call histories on DiffRHS against a one-variable reference model, plus an exhaustive product for the finite-difference JacobianWrapper",
+            "(b) every history to depth 4 (quick) / 5 (thorough) over 9 operations, with and without a jac attribute on the user's function: the answer must be exactly the attached function's value, else the analytic Jacobian at the requested (t, y) (a time-dependent, non-symmetric right-hand side exposes stale time/state and transposition), njev/nfev exact. (a) 5 functions incl. non-square and matrix-shaped maps x evaluation points with components in {1e-8, 0.3, 5, 1e4} x base orders {2,3,5,7} x flat on/off: layout and values.",
+            "Finite-difference tolerance 100*(rtol|J|+atol) plus a round-off floor; linear maps 1e5*eps*|A||x|.",
+            "DESIGN.md 4/C16"),
     "C17": ("exploration",
             "exhaustive enumeration of all strictly increasing arrays of length 1..7 over a 9-point grid x 21 queries (scalar and vector search, 4 container types) and of cubic/interval/evaluation-point lattices for the Hermite piece",
             "The statement's own finite quantifier is enumerated completely: 501 arrays x 21 queries x {float32, float64, longdouble, list} against min(searchsorted_left, n-1); Hermite pieces for 7 cubics x 20 ordered intervals x 37 points x scalar/array data x 3 dtypes against the cubic itself with a derived rounding bound. exhaustive=true.",
             "Hermite tolerance 64*eps*sum|basis||data| (absolute-coefficient bound); numpy.searchsorted trusted as the specification of 'first element not smaller'.",
             "DESIGN.md 4/C17"),
+    "C18": ("exploration",
+            "exhaustive sub-products over the facade's arguments (every registered method name, all 31 subsets of a t_eval lattice plus unsorted/repeated variants, state shapes, args tuples, max_step, tolerances, spans of every sign/direction) with differential oracles (closed form, underlying system, object API driven by hand, scipy)",
+            "Shapes and pairing of (t, y); first column = initial condition; t_eval honoured; args bound in order (distinguishable parameters, closed form); no recorded step longer than max_step on the underlying grid (also backward); sol / counters / status are the underlying system's; results equal the object API driven by hand at rounding level and scipy's solve_ivp within tolerance.",
+            "t_eval on backward spans is rejected by the facade by design; 'exactly those times' = one column per requested time at that time to 64 eps (C03's end-point rule).",
+            "DESIGN.md 4/C18"),
     "C19": ("exploration",
             "exhaustive enumeration of recorded grids x all integer indices in [-len-2, len+2] x a lattice of query times (recorded times and their floating-point neighbours, exact midpoints and +-2^j ulp, outside both ends) x whole-run slices, against python-list semantics",
             "The real OdeSystem is compared with a boring reference (a python list of rows, IndexError outside, linear nearest-sample search with exact tie handling) for uniform/adaptive grids, forward/backward/through-zero/negative times, one call / continued / partial / never run, dense on/off.",
